@@ -126,7 +126,10 @@ def mk_system(f_units, f_space, f_inherit):
     net = mk_network(f_units, f_inherit)
     space = mk_grid(f_units, 2, 1, 1, 0, 1, 0) if _R[f_space] % 2 == 0 else mk_graph(f_units, f_inherit, 0)
     n = space.size()
-    return RDSystem(net, space, state=[1.0 + 0.5 * k for k in range(3 * n)], chemostats=[k % 2 for k in range(3 * n)], units_system=us(f_units))
+    # chemostat map: an explicit pattern / explicitly ALL ZERO although species B is chemostated by default in e1 / left to the default
+    mode = (_R[f_units] + _R[f_inherit]) % 3
+    chem = [[k % 2 for k in range(3 * n)], [0] * (3 * n), None][mode]
+    return RDSystem(net, space, state=[1.0 + 0.5 * k for k in range(3 * n)], chemostats=chem, units_system=us(f_units))
 
 
 _POL = ["on_t_sample", "on_iteration", "on_interval", "no_sampling"]
